@@ -19,12 +19,13 @@ ID = "C07"
 LEVEL = "exploration"
 CASE_TIMEOUT = 1500
 RULE = ("daily and billing models (parameter-built for every split layout and shape; a few fitted) x reporting sets with every pattern of "
-        "{temperature NaN, +-inf, usage NaN} x {isolated, runs, first/last row, whole month} x billing aggregations {none, monthly, bimonthly}; "
+        "{temperature NaN, +-inf, usage NaN} x {isolated, runs, first/last row, whole month} x billing aggregations {none, monthly, bimonthly} x "
+        "what the same model object predicted before {nothing, a temperature-only set, a set with usage gaps, both}; "
         "every returned frame is judged.  distinct_nontrivial = distinct (family, split layout, defect pattern, aggregation) frames that "
         "contained at least one row without temperature or without usage.")
 ASSUMPTIONS = ["'has a value' means finite (NaN and +-inf are missing)", "column sums skip missing values, as the documentation's df.sum() does"]
 REQUIRED_REACH = {"post.predict_frame": 60, "clause.rowwise_mask": 40, "clause.sum_identity": 60, "rows.temperature_missing_with_usage": 100,
-                  "rows.usage_missing": 50, "agg.monthly": 6, "agg.bimonthly": 6}
+                  "rows.usage_missing": 50, "agg.monthly": 6, "agg.bimonthly": 6, "history.after_temperature_only": 12}
 
 VIOL = []
 CUR = {}
@@ -133,6 +134,10 @@ PATTERNS = [["t_isolated"], ["t_run"], ["t_first"], ["t_last"], ["t_month"], ["t
             ["t_isolated", "o_isolated"], ["t_run", "o_run", "t_inf"], ["t_first", "t_last", "o_zero"], ["t_month", "o_run"], [], ["t_all"]]
 
 
+# what the same model object was used for before the judged predict (state must not carry over)
+PRIORS = [[], ["temp-only"], ["usage-gaps"], ["temp-only", "usage-gaps"], ["temp-only-monthly"]]
+
+
 def gen_cases(tier, seed):
     q = tier == "quick"
     splits = B.all_split_strings()
@@ -140,11 +145,12 @@ def gen_cases(tier, seed):
     n = 48 if q else 600
     for i in range(n):
         cases.append(dict(kind="param", family="daily" if i % 3 else "billing", split=splits[i % len(splits)], pattern=PATTERNS[i % len(PATTERNS)],
-                          tz=["America/Chicago", "UTC", "Australia/Sydney", "Europe/London", "Asia/Kolkata"][i % 5], n=i, with_observed=bool(i % 7 != 6)))
+                          tz=["America/Chicago", "UTC", "Australia/Sydney", "Europe/London", "Asia/Kolkata"][i % 5], n=i, with_observed=bool(i % 7 != 6),
+                          prior=PRIORS[(i // 3) % len(PRIORS)]))
     nf = 4 if q else 40
     for i in range(nf):
         cases.append(dict(kind="fitted", family=["daily", "billing", "legacy"][i % 3], pattern=PATTERNS[(i * 5) % len(PATTERNS)],
-                          tz=["America/Chicago", "Europe/Berlin"][i % 2], n=1000 + i, with_observed=True, timeout=1500))
+                          tz=["America/Chicago", "Europe/Berlin"][i % 2], n=1000 + i, with_observed=True, timeout=1500, prior=PRIORS[(i + 1) % len(PRIORS)]))
     return cases
 
 
@@ -175,6 +181,22 @@ def run_case(spec):
             m, _, _ = FT.fit_billing(rng, tz=tz)
         else:
             m, _, _ = FT.fit_daily(rng, profile="legacy" if fam == "legacy" else "current", tz=tz, weekend=0.3)
+        # history: the same model object was used before, on reporting sets of another kind (temperature only / gappy usage)
+        Rcls = em.BillingReportingData if fam == "billing" else em.DailyReportingData
+        for step in spec.get("prior", []):
+            pdf = defect_frame(rng, tz, "2018-03-01", 60, ["o_isolated", "t_isolated"] if step == "usage-gaps" else ["t_isolated"], with_observed=(step != "temp-only"))
+            kw = {}
+            if fam == "billing" and step == "temp-only-monthly":
+                kw["aggregation"] = "monthly"
+            try:
+                pp = m.predict(Rcls(pdf, is_electricity_data=True), ignore_disqualification=True, **kw)
+            except KeyError:
+                continue
+            I.reach("history.prior_predict")
+            if step.startswith("temp-only"):
+                I.reach("history.after_temperature_only")
+            if not kw:
+                judge_frame(pp, fam if fam == "billing" else "daily")
         start = str((pd.Timestamp("2019-01-01") + pd.Timedelta(days=int(rng.integers(0, 400)))).date())
         n = int(rng.choice([31, 90, 200, 366]))
         df = defect_frame(rng, tz, start, n, spec["pattern"], with_observed=spec["with_observed"])
